@@ -1,8 +1,15 @@
 use amv::fw::Check;
 
+pub mod c01_conv;
 pub mod c02_ref;
+pub mod c04_meta;
 pub mod c23_bloom;
 
 pub fn registry() -> Vec<Box<dyn Check>> {
-    vec![Box::new(c02_ref::C02), Box::new(c23_bloom::C23)]
+    vec![
+        Box::new(c01_conv::C01),
+        Box::new(c02_ref::C02),
+        Box::new(c04_meta::C04),
+        Box::new(c23_bloom::C23),
+    ]
 }
